@@ -119,3 +119,29 @@ Definition spec_trim (s : bytes) : bytes :=
 
 (* the UUID a text denotes, if it is exactly one UUID surrounded by white space only *)
 Definition spec_uuid_of_text (s : bytes) : option N := spec_read_uuid (spec_trim s).
+
+(* ---------- what must be displayed ---------- *)
+(* 4.2, table 2: the versions the RFC defines; everything else is not a known type *)
+Definition version_name (v : N) : bytes :=
+  if v =? 1 then bs "UUID v1 (Gregorian time)"
+  else if v =? 2 then bs "UUID v2 (DCE)"
+  else if v =? 3 then bs "UUID v3 (MD5)"
+  else if v =? 4 then bs "UUID v4 (random)"
+  else if v =? 5 then bs "UUID v5 (SHA1)"
+  else if v =? 6 then bs "UUID v6 (reordered Gregorian time)"
+  else if v =? 7 then bs "UUID v7 (Unix epoch time)"
+  else if v =? 8 then bs "UUID v8 (custom)"
+  else bs "UUID (unknown type)".
+Definition spec_description (n : N) : bytes :=
+  if n =? spec_nil then bs "UUID (Nil UUID)"
+  else if n =? spec_max then bs "UUID (Max UUID)"
+  else version_name (spec_version n).
+(* the version number a description claims: the digit after "UUID v" *)
+Definition shown_version (desc : bytes) : option N :=
+  match desc with
+  | 85 :: 85 :: 73 :: 68 :: 32 :: 118 :: d :: 32 :: _ => if (48 <=? d) && (d <=? 57) then Some (d - 48) else None
+  | _ => None
+  end.
+Definition spec_domain_name (d : N) : bytes :=
+  if d =? 0 then bs "Person" else if d =? 1 then bs "Group" else if d =? 2 then bs "Org"
+  else bs "Domain" ++ dec_of_N d.
